@@ -183,6 +183,28 @@ def unary_binary(ctx):
                           got=r.valid, a=a.valid, b=b.valid)
                 flip_test(ctx, r, [a, b], what)
                 ctx.event("binary.ufunc")
+    # ufuncs with several outputs (np.divmod, np.modf, np.frexp): the library may refuse
+    # them (it does at the pinned commit, which is not judged); if it returns fields, each of
+    # them is the result of a binary / unary operation and carries the AND / the operand's mask
+    for name, call, ops in (("np.divmod", lambda: np.divmod(f, g), [f, g]),
+                            ("np.divmod(g, f)", lambda: np.divmod(g, f), [g, f]),
+                            ("np.modf", lambda: np.modf(f), [f]),
+                            ("np.frexp", lambda: np.frexp(f), [f])):
+        if f.array.dtype.kind == "c":
+            break
+        try:
+            with np.errstate(all="ignore"):
+                outs = call()
+        except Exception:  # noqa: BLE001 - refused
+            ctx.event("multi_output_ufunc.refused")
+            continue
+        ctx.event("multi_output_ufunc.returned")
+        expv = ops[0].valid if len(ops) == 1 else ops[0].valid & ops[1].valid
+        for k, r in enumerate(outs if isinstance(outs, tuple) else (outs,)):
+            if isinstance(r, df.Field):
+                ctx.check("C08.binary.valid_and" if len(ops) == 2 else "C08.unary.valid",
+                          np.array_equal(r.valid, expv),
+                          what={"op": name, "output": k, **base}, got=r.valid, expected=expv)
     # stacking
     comps = [s, df.Field(f.mesh, nvdim=1, value=1.0, valid=gen.rand_valid(rng, n, "random"))]
     what = {"op": "lshift", **base}
